@@ -55,6 +55,31 @@ from vlib.core import (  # noqa: E402
 MAX_ROUNDS = 4  # root causes looked for beyond the first one
 
 
+def _stage_timeout(tier):
+    """wall-clock ceiling of one stage (exhaustive sweep / one round of generated search): a safety net against hung
+    workers only - an order of magnitude above the slowest stage observed on the unchanged tree"""
+    return int(os.environ.get("VERIF_STAGE_TIMEOUT", "5400" if tier == "quick" else "28800"))
+
+
+def _guarded_map(pool, fn, args, tier):
+    """pool.map with the stage ceiling; on expiry the workers are killed BEFORE the exception leaves the pool's context
+    (leaving it would otherwise wait for the hung workers)"""
+    it = pool.map(fn, args, chunksize=1, timeout=_stage_timeout(tier))
+    while True:
+        try:
+            res = next(it)
+        except StopIteration:
+            return
+        except cf.TimeoutError:
+            for p_ in list((getattr(pool, "_processes", None) or {}).values()):
+                try:
+                    p_.kill()
+                except Exception:  # noqa: BLE001
+                    pass
+            raise
+        yield res
+
+
 def derive_seed(seed, cid, widx, rnd):
     h = hashlib.sha256(f"{seed}|{cid}|{widx}|{rnd}".encode()).digest()
     return int.from_bytes(h[:8], "big")
@@ -481,7 +506,7 @@ def main(argv=None):
             if hasattr(mod, "exhaustive_jobs") and not a.no_exhaustive:
                 ejobs = mod.exhaustive_jobs(tier)
                 exh_info = {"jobs": len(ejobs), "cases": 0, "nontrivial": 0, "scope": getattr(mod, "EXHAUSTIVE_SCOPE", {}).get(tier, "")}
-                for res in pool.map(_exh_worker, [(cid, j) for j in ejobs], chunksize=1):
+                for res in _guarded_map(pool, _exh_worker, [(cid, j) for j in ejobs], tier):
                     if "harness_error" in res:
                         harness_errors.append(res["harness_error"])
                         continue
@@ -503,7 +528,7 @@ def main(argv=None):
                 ex = examples if rnd == 0 else max(20, examples // 2)
                 args = [(cid, tier, seed, w, rnd, sorted(seen_sigs), ex) for w in range(jobs)]
                 new = 0
-                for res in pool.map(_worker, args, chunksize=1):
+                for res in _guarded_map(pool, _worker, args, tier):
                     if "harness_error" in res:
                         harness_errors.append(res["harness_error"])
                         continue
@@ -518,6 +543,10 @@ def main(argv=None):
                     break
 
 
+    except cf.TimeoutError:
+        # a stage did not finish within its wall-clock ceiling (a worker hangs, e.g. inside a corrupted allocator):
+        # inconclusive, never a violation - the workers are killed and the check ends with exit 2
+        harness_errors.append(f"a stage exceeded its wall-clock ceiling of {_stage_timeout(tier)} s (VERIF_STAGE_TIMEOUT): inconclusive")
     except BrokenProcessPool:
         # a worker was killed: find the case(s) being run, confirm each in a fresh process
         crashed = _triage_crash(cid, crashdir)
